@@ -72,7 +72,7 @@ func ValidateGenesis(data GenesisState) error {
 
 	// validate token
 	for _, token := range data.Tokens {
-		if err := token.Validate(); err != nil {
+		if err := token.ValidateStored(); err != nil {
 			return err
 		}
 	}
